@@ -287,9 +287,44 @@ func ruleEqShape(c *Ctx) {
 	}
 }
 
+// equalEntry: the exported Equal answers with the verdict of the recursive comparison and
+// with nothing else: every return is the constant false (ill-formed input) or the result of
+// the comparison applied to nodes over the two texts. A second way of answering (compacted
+// bytes for deep or long texts, a cache, …) is a second notion of equality.
+func equalEntry(c *Ctx, b *Body, eq *ssa.Function) {
+	l := c.L
+	ent := fnOf(b.Lib, "Equal")
+	if ent == nil || len(ent.Params) != 2 {
+		return
+	}
+	key := "Equal: every answer is false for ill-formed input or the verdict of the recursive comparison"
+	bad := ""
+	n := 0
+	for _, r := range returnsOf(ent) {
+		n++
+		v := r.Results[0]
+		if k, ok := boolConst(v); ok && !k {
+			continue
+		}
+		call, ok := v.(*ssa.Call)
+		if !ok || call.Call.StaticCallee() != eq {
+			bad = "the return at " + b.posOf(r) + " answers with " + describeValue(v) + " instead of the recursive comparison: texts for which this path is taken are compared by another rule (their spelling, say), so equal values can differ and the relation is no longer one equality"
+			continue
+		}
+	}
+	if bad != "" {
+		l.add("R-EQSHAPE", b.Name, key, b.rel(ent.Pos()), Violated, bad, true)
+	} else {
+		l.add("R-EQSHAPE", b.Name, key, b.rel(ent.Pos()), Discharged, fmt.Sprintf("%d return(s): constant false, or %s applied to the two nodes", n, fname(eq)), true)
+	}
+}
+
 func ruleEqShapeBody(c *Ctx, b *Body) {
 	l := c.L
 	eq := b.equalRole()
+	if eq != nil {
+		equalEntry(c, b, eq)
+	}
 	if eq == nil || eq.Blocks == nil {
 		l.add("R-EQSHAPE", b.Name, "anchor: recursive comparison of two nodes", "", Undecided, "no method of *lazyNode taking a *lazyNode and returning bool", false)
 		return
